@@ -64,7 +64,20 @@ def evaluate(case):
             if not bm.close(txns[0].commission, txns[1].commission):
                 fails.append(bm.fail('C05.buy_sell_symmetry', {'commissions': [t.commission for t in txns],
                                                                'qty': [t.quantity for t in txns]}))
-    # cash delta of the update = -(price x qty + commission) per fill (ties C05 to what is debited)
+    # what is actually debited: cash delta of the update = -(price x qty + documented commission) per fill
+    if txns and not [f for f in fails if f['clause'].startswith('C05.')]:
+        table = bm.QUOTES[m.dh.table]
+        want = bm.F('200000')
+        ok_alt = [want]
+        for t in txns:
+            side = bm.F(table[t.asset][1] if t.quantity > 0 else table[t.asset][0])
+            comms = bm.ref_commission(tuple(case['fee']), side, bm.F(int(t.quantity)))
+            ok_alt = [w - (side * int(t.quantity) + c) for w in ok_alt for c in comms]
+        cash = m.broker.get_portfolio_cash_balance('1')
+        if not any(bm.close(cash, w) for w in ok_alt):
+            fails.append(bm.fail('C05.commission_debited', {'cash_after': cash, 'expected': [float(w) for w in ok_alt],
+                                                           'fills': [[t.asset, t.quantity, t.price, t.commission] for t in txns],
+                                                           'fee': case['fee']}))
     return m, fails, txns
 
 
